@@ -657,6 +657,19 @@ class Interp:
                 raise Unmodelled(f"isinstance in {src(e)[:50]}")
             if name in ("any", "all"):
                 return {"any": any, "all": all}[name](self.truth(x) for x in args[0])
+            if name == "next" and name not in self.externals:
+                it_ = iter(args[0])
+                for x_ in it_:
+                    return x_
+                if len(args) > 1:
+                    return args[1]
+                raise Raised(ExcVal("StopIteration", None, {"expr": src(e)}, e.lineno))
+            if name == "iter" and len(args) == 1:
+                return list(args[0])
+            if name in ("abs", "round") and name not in self.externals:
+                return {"abs": abs, "round": round}[name](*args)
+            if name == "reversed":
+                return list(reversed(list(args[0])))
             if name == "sum":
                 return sum(*args)
             if name == "range":
